@@ -5,6 +5,7 @@ The transition table is regenerated from mistral/workflow/states.py on every run
 engine by the exhaustive `lifecycle` stream (every state x every operation on the real code).
 -/
 import Mistral.Model.Lifecycle
+import Mistral.Lemmas.Engine
 
 namespace Mistral.Props.C03
 open Mistral Mistral.Lifecycle Mistral.Gen.States
@@ -117,5 +118,84 @@ theorem task_success_final_full_fails : ¬ (∀ op : TaskOp, (taskApply .SUCCESS
   have := h .defer
   revert this
   decide
+
+
+/-! ### engine level (Mistral.Engine, tied by the `core` stream) -/
+/-- one compare-and-swap on the workflow state, or none -/
+def moveOrStay (a b : St) : Prop := b = a ∨ documentedMove a b = true
+
+instance (a b : St) : Decidable (moveOrStay a b) := by unfold moveOrStay; exact inferInstance
+
+open Mistral.Engine in
+/-- In every step of the engine — whatever message, job, result or operator command is
+    processed — the state of a started workflow execution changes by at most two documented
+    moves (two only for `resume` of a workflow whose tasks all finished while it was paused:
+    PAUSED → RUNNING → final verdict, two compare-and-swaps in one transaction).  No rerun
+    exists in this layer, so ERROR / CANCELLED / SUCCESS are never left. -/
+theorem wf_moves_ok_engine (sp : Spec) (w : World) (ev : Event) (h : StartedWf w.wf) :
+    ∃ mid, moveOrStay w.wf mid ∧ moveOrStay mid (step sp w ev).wf := by
+  rcases step_wf sp w ev with h0 | ⟨_, hi, _⟩ | ⟨_, hp⟩ | ⟨t, _, hs⟩ | ⟨_, hpi, hr⟩ | ⟨_, hnc, hc⟩
+  · exact ⟨w.wf, Or.inl rfl, Or.inl h0⟩
+  · have : ¬ StartedWf St.IDLE := by decide
+    exact absurd (hi ▸ h) this
+  · refine ⟨w.wf, Or.inl rfl, ?_⟩
+    rw [hp]
+    rcases h with h | h | h | h | h <;> rw [h] <;> decide
+  · refine ⟨w.wf, Or.inl rfl, ?_⟩
+    rw [hs]
+    rcases h with h | h | h | h | h <;> rw [h] <;> cases t <;> decide
+  · have hpa : w.wf = .PAUSED := by
+      rcases h with h | h | h | h | h <;> rw [h] at hpi ⊢ <;> first | rfl | (revert hpi; decide)
+    refine ⟨.RUNNING, by rw [hpa]; decide, ?_⟩
+    rcases hr with hr | hr | hr | hr <;> rw [hr] <;> decide
+  · have hrun : w.wf = .RUNNING := by
+      rcases h with h | h | h | h | h <;> rw [h] at hnc ⊢ <;> first | rfl | (revert hnc; decide)
+    refine ⟨w.wf, Or.inl rfl, ?_⟩
+    rw [hrun]
+    rcases hc with hc | hc | hc <;> rw [hc] <;> decide
+
+theorem moveOrStay_started (a b : St) (h : Mistral.Engine.StartedWf a) (hm : moveOrStay a b) :
+    Mistral.Engine.StartedWf b := by
+  rcases hm with rfl | hm
+  · exact h
+  · revert hm
+    rcases h with h | h | h | h | h <;> rw [h] <;> cases b <;> simp [documentedMove, Mistral.Engine.StartedWf]
+
+open Mistral.Engine in
+theorem started_preserved (sp : Spec) (w : World) (ev : Event) (h : StartedWf w.wf) :
+    StartedWf (step sp w ev).wf := by
+  obtain ⟨mid, h1, h2⟩ := wf_moves_ok_engine sp w ev h
+  exact moveOrStay_started _ _ (moveOrStay_started _ _ h h1) h2
+
+open Mistral.Engine in
+/-- … and therefore along EVERY history of a started execution (induction over the event
+    list) each individual state change is a documented move. -/
+theorem wf_moves_ok_reachable (sp : Spec) (evs : List Event) (ev : Event) :
+    let w := evs.foldl (step sp) (step sp init .start)
+    StartedWf w.wf ∧ ∃ mid, moveOrStay w.wf mid ∧ moveOrStay mid (step sp w ev).wf := by
+  have hstart : StartedWf (step sp init .start).wf := by
+    simp only [step, init]
+    simp [dispatch_wf, StartedWf]
+  have hall : ∀ (evs : List Event) (w0 : World), StartedWf w0.wf → StartedWf (evs.foldl (step sp) w0).wf := by
+    intro evs
+    induction evs with
+    | nil => intro w0 h; exact h
+    | cons e rest ih => intro w0 h; exact ih _ (started_preserved sp w0 e h)
+  exact ⟨hall evs _ hstart, wf_moves_ok_engine sp _ ev (hall evs _ hstart)⟩
+
+open Mistral.Engine in
+/-- SUCCESS is never left, at engine level, by any event. -/
+theorem success_never_left_engine (sp : Spec) (w : World) (ev : Event) (h : w.wf = .SUCCESS) :
+    (step sp w ev).wf = .SUCCESS := by
+  obtain ⟨mid, h1, h2⟩ := wf_moves_ok_engine sp w ev (by simp [StartedWf, h])
+  rw [h] at h1
+  have hm : mid = .SUCCESS := by
+    rcases h1 with h1 | h1
+    · exact h1
+    · revert h1; cases mid <;> simp [documentedMove]
+  rw [hm] at h2
+  rcases h2 with h2 | h2
+  · exact h2
+  · revert h2; cases (step sp w ev).wf <;> simp [documentedMove]
 
 end Mistral.Props.C03
